@@ -191,6 +191,7 @@ class StoreDriver(object):
         def do_save(cat, m, probe=False, idx=0):
             r = writer.create_new_recording(cat)
             cross = None
+            reentrant = False
             if probe:
                 # the id exists, nothing is stored under it yet: looked up through the very cassette that will save it
                 for fn, name in ((writer.get_recording, 'get_recording'), (writer.get_recording_metadata, 'get_recording_metadata')):
@@ -211,6 +212,14 @@ class StoreDriver(object):
                     data['Request "tags"'] = {'value': {'tags': cross, 'other': [1]}}
                     pm['tags'] = cross
                     pm['more'] = {'again': cross, 'n': 1}
+                if self.rich and ids and rnd.random() < 0.25:
+                    # a value that, while the recording is being serialised, fetches an earlier recording from the very
+                    # cassette that is saving (its key sorts first); shared sub-objects follow it in the same document
+                    from .values import Reentrant
+                    reentrant = True
+                    sh = ['shared', 1]
+                    data['A reentrant value'] = {'value': Reentrant(len(ids))}
+                    data['z shared'] = {'value': sh, 'again': [sh, sh]}
                 if not self.rich or composite_is_faithful(data, pm):
                     break
                 self.outside_domain += 1
@@ -219,7 +228,19 @@ class StoreDriver(object):
             for k, v in data.items():
                 r.set_data(k, v)
             r.add_metadata(pm)
-            writer.save_recording(r)
+            if reentrant:
+                from .values import Reentrant
+
+                def hook():
+                    other = writer.get_recording(ids[0]) if self.config == 'memory' else reader_factory().get_recording(ids[0])
+                    for kk in other.get_all_keys():
+                        other.get_data(kk)
+                Reentrant.hook = hook
+            try:
+                writer.save_recording(r)
+            finally:
+                if reentrant:
+                    Reentrant.hook = None
             ids.append(r.id)
             import copy
             saved.append((copy.deepcopy(data), copy.deepcopy(pm)))
